@@ -14,6 +14,7 @@ import (
 	"fmt"
 	"os"
 	"sort"
+	"strings"
 	"sync/atomic"
 	"time"
 )
@@ -27,10 +28,11 @@ type Gen struct {
 	n        int
 	current  atomic.Value // string: the case being executed (for the watchdog)
 	started  int64        // unix nano of the current case start
-	Sync     bool // announce every case on stderr before running it, flush after (crash diagnosis)
-	sample   [][2]string // reservoir of (op, args) re-executed in shuffled order at the end
+	Sync     bool         // announce every case on stderr before running it, flush after (crash diagnosis)
+	sample   [][2]string  // reservoir of (op, args) re-executed in shuffled order at the end
 	seen     int
 	noSample bool
+	pairs    map[string]*[2]string // (op, k, arg k) -> two different cases sharing argument k (see notePair)
 	Stats    map[string]int
 	Exhaust  []string // names of finite sub-domains enumerated completely
 }
@@ -89,6 +91,37 @@ func (g *Gen) rerunSample() {
 		g.Do(c[0], c[1], "")
 	}
 	g.Stats["rerun-shuffled"] = len(s)
+	g.rerunPairs()
+}
+
+// rerunPairs replays pairs of cases of this run that share ONE argument (same index at two heights, same bitmap at two
+// positions, same key list with two ranges ...) back to back, A B A B: a memo table or cache keyed on a subset of the
+// arguments hands B the answer of A.  The replayed cases are ordinary case lines judged like all others.
+func (g *Gen) rerunPairs() {
+	keys := make([]string, 0, len(g.pairs))
+	for k, p := range g.pairs {
+		if p[1] != "" {
+			keys = append(keys, k)
+		}
+	}
+	sort.Strings(keys)
+	for i := len(keys) - 1; i > 0; i-- {
+		j := g.R.Intn(i + 1)
+		keys[i], keys[j] = keys[j], keys[i]
+	}
+	limit := g.N(1500, 6000)
+	if len(keys) > limit {
+		keys = keys[:limit]
+	}
+	for _, k := range keys {
+		op := k[:strings.IndexByte(k, 0)]
+		p := g.pairs[k]
+		g.Do(op, p[0], "")
+		g.Do(op, p[1], "")
+		g.Do(op, p[0], "")
+		g.Do(op, p[1], "")
+	}
+	g.Stats["rerun-pairs"] = 4 * len(keys)
 }
 
 func try(f func() string) (r string) {
@@ -119,6 +152,7 @@ func main() {
 	seed := flag.Uint64("seed", 1, "PRNG seed")
 	outp := flag.String("out", "", "output file (default stdout)")
 	corpus := flag.String("corpus", "", "corpus file: op \\t args lines replayed first")
+	corpusOnly := flag.Bool("corpusonly", false, "replay the corpus and stop (the generators then run in a process of their own)")
 	replay := flag.String("replay", "", "run one case: op \\t args")
 	syncf := flag.Bool("sync", false, "announce each case on stderr before running it")
 	flag.Parse()
@@ -161,6 +195,12 @@ func main() {
 			os.Exit(2)
 		}
 		g.Stats["corpus"] = g.n
+	}
+	if *corpusOnly {
+		g.rerunSample()
+		g.out.Flush()
+		fmt.Fprintf(os.Stderr, "STAT\tcorpus\t%d\n", g.Stats["corpus"])
+		return
 	}
 	f(g)
 	g.rerunSample()
